@@ -103,12 +103,25 @@ func init() {
 			panic(x.unsupported("json.Decoder.Decode into something other than a pointer"))
 		}
 		fresh := x.freshValue(st, x.resolveType(dst.Elem), "decoded")
+		// a field the text does not mention keeps the value the target had before (encoding/json)
+		var old Value
+		if dst.LV != nil {
+			old = dst.LV.Load(x, st)
+		} else {
+			old = x.heapLoad(st, dst)
+		}
 		if d, ok := pc.recv.(PtrV); ok {
 			text := x.ghostSel(st, "readall", x.ghostSel(st, "jsonsrc", d.Addr))
 			if sv, ok := fresh.(StructV); ok {
+				ov, _ := old.(StructV)
 				for _, n := range sv.Names {
 					if f, ok := sv.F[n].(StrV); ok {
-						st.assumeRaw(Eq(x.strID(st, f), App("jsonfield", SInt, text, x.strID(st, x.strLit(n)))))
+						nm := x.strID(st, x.strLit(n))
+						val := App("jsonfield", SInt, text, nm)
+						if of, ok := ov.F[n].(StrV); ok {
+							val = Ite(App("jsonhas", SBool, text, nm), val, x.strID(st, of))
+						}
+						st.assumeRaw(Eq(x.strID(st, f), val))
 					}
 				}
 			}
